@@ -559,6 +559,9 @@ def run(p, rep, tier):
     r8(p, rep)
     r9(p, rep)
     r10(p, rep)
+    from . import c11 as _c11
+
+    _c11.r8(p, rep)  # a backend whose factory module deviates from its siblings behaves differently for this property
     from . import c05, c14
 
     rep.rule("C05.R1", "merged transpose = inner permutation indexed by the outer permutation", "T-DER [S]", floor=1)
